@@ -35,6 +35,8 @@ var poolExpression = []string{
 	"Array(1,2,3)[1]", "'str'+'x'", "\"a\"+1", "-a", "+a", "(a)", "a % 2", "a ^ 2", "2 * (3 + 4) / 5",
 	"1 +", "(a", "a b", ")", "a[1", "f(", "f(1,", "1 2", "", "  ", "a LIKE 'x'", "Unknown(1)", "zz", "1/0", "'é'", "'abc", "a <= ", "<= a",
 	"a<=b AND a<>b AND a<<b", "If(a<=b, a<<1, a>>1)",
+	"1%0", "a/(b-2)", "Array(1,2)[5]", "'abc'[7]", "Array(1)[-1]", "''[0]", "1 << -1", "a >> -2", "zz NOT IN Array(1)", "zz IN Array(1)",
+	"Min(zz, 1)", "Choose(-1, 1, 2, 3)", "Choose(9, 1, 2, 3)", "If('x', 1, 2)", "'é' + 'λ'", "\"é\"",
 }
 
 // defaultVarSet is the variable assignment used with pool expressions.
